@@ -252,8 +252,13 @@ TSnapCheck ==
   /\ Report(Flag(~Ev.same, "snapMutated") \cup Flag(Ev.delivered # Ev.n, "snapUndelivered"))
   /\ UNCHANGED <<vars, skip, dead, known>>
 
+\* the consumer of the post-change hook is slow over the next notification: no step of the specification
+THookStall ==
+  /\ ~dead /\ IsEvent("hookstall")
+  /\ UNCHANGED <<vars, skip, dead, known>>
+
 TraceNext == TReset \/ TDead \/ TPanic \/ TAddBegin \/ TTry \/ TAddEnd \/ TCallErr \/ TDelete
-             \/ TFlush \/ TAddNI \/ TSnapCheck
+             \/ TFlush \/ TAddNI \/ TSnapCheck \/ THookStall
 
 TraceSpec == TraceInit /\ [][TraceNext]_tvars
 
